@@ -89,75 +89,95 @@ def match_arms(body):
 
 
 def final_flush_arms():
+    """the final-flush loop = the last `loop { .. }` of write_buffer_worker that calls flush_worker_shards.
+    Its body is walked statement by statement; every way through one iteration becomes an arm:
+    `break` ends the path (exits), `c += 1` bumps, `if c == LIMIT { .. break; }` is the guard,
+    `if other { .. break; }` and `match .. { arms }` split the path."""
     path = "src/storage/write_buffer.rs"
     src = strip_comments(open(os.path.join(REPO, path)).read())
     f = src.find("fn write_buffer_worker")
     if f < 0:
         die("write_buffer_worker not found in " + path)
     fbody, _ = block_at(src, src.index("{", src.index(")", f)))
-    shut = lm = None
-    for m in re.finditer(r"if ctx\.shutdown\.load\(Ordering::Acquire\) \{", fbody):
-        blk, _ = block_at(fbody, m.end() - 1)
-        l = re.search(r"\bloop\s*\{", blk)
-        if l:
-            shut, lm = blk, l
-    if shut is None:
-        die("the shutdown branch (with its final-flush loop) of write_buffer_worker was not found")
-    pre = shut[:lm.start()]
-    counters = re.findall(r"let\s+mut\s+(\w+)\s*=\s*0\s*;", pre)
-    loop_body, _ = block_at(shut, lm.end() - 1)
-    mm = re.match(r"\s*match\s+flush_worker_shards\([^)]*\)\s*\{", loop_body)
-    if not mm:
-        die("the final-flush loop is no longer `loop { match flush_worker_shards(..) { .. } }`")
-    mbody, after = block_at(loop_body, mm.end() - 1)
-    if loop_body[after:].strip():
-        die("statements after the match in the final-flush loop: %r" % loop_body[after:].strip()[:80])
-    limit = None
+    found = None
+    for l in re.finditer(r"\bloop\s*\{", fbody):
+        blk, _ = block_at(fbody, l.end() - 1)
+        if "flush_worker_shards(" in blk:
+            found = (l.start(), blk)
+    if found is None:
+        die("the shutdown branch (with its final-flush loop) of write_buffer_worker was not found: no `loop { .. flush_worker_shards(..) .. }`")
+    counters = re.findall(r"let\s+mut\s+(\w+)(?:\s*:\s*\w+)?\s*=\s*0(?:_?[ui]\w+)?\s*;", fbody[:found[0]])
+    state = {"limit": None}
     arms = []  # (name, exits, bumps, guard)
-    for pat, body in match_arms(mbody):
-        bumps, guard, exits = [], None, False
-        for it in top_level_items(body):
+
+    def harmless(text, where):
+        if re.search(r"\b(continue|return|loop|while|for|break)\b|\?\s*[;)]|\?\s*$", text):
+            die("%s: statement not understood: %r" % (where, re.sub(r"\s+", " ", text)[:90]))
+
+    def leaves(inner, where):
+        """does this block leave the loop: 'always' (a top-level `break;`), 'maybe' (a nested one), 'no'"""
+        items = top_level_items(inner)
+        for it in items:
             if re.fullmatch(r"break\s*;?", it):
-                exits = True
-                break
-            m = re.fullmatch(r"(\w+)\s*\+=\s*1\s*;", it)
-            if m:
-                if m.group(1) not in counters:
-                    die("arm `%s` bumps `%s`, which is not a counter initialised before the loop" % (pat, m.group(1)))
+                return "always"
+        if re.search(r"\bbreak\b", inner):
+            return "maybe"
+        if re.search(r"\b(continue|return|loop|while|for)\b|\?\s*[;)]", inner):
+            die("%s: control flow not understood in %r" % (where, re.sub(r"\s+", " ", inner)[:90]))
+        return "no"
+
+    def walk(items, name, bumps, guard):
+        if not items:
+            arms.append((name or "(every round)", False, bumps, guard))
+            return
+        it, rest = items[0], items[1:]
+        if re.fullmatch(r"break\s*;?", it):
+            arms.append((name or "(every round)", True, bumps, None))
+            return
+        m = re.fullmatch(r"(\w+)\s*\+=\s*1\s*;", it)
+        if m:
+            if m.group(1) not in counters:
+                die("`%s += 1`: not a counter initialised to 0 before the loop" % m.group(1))
+            if guard is not None:
+                die("path `%s` bumps a counter after its limit check" % name)
+            return walk(rest, name, bumps + [m.group(1)], guard)
+        m = re.match(r"match\s+(.*?)\s*\{", it, re.S)
+        if m and not it.startswith("match!"):
+            mbody, end = block_at(it, it.index("{", m.end() - 1))
+            if it[end:].strip(" ;"):
+                die("a match used as an expression inside a larger statement: %r" % it[:80])
+            for pat, body in match_arms(mbody):
+                walk(top_level_items(body) + rest, (name + " / " if name else "") + pat, list(bumps), guard)
+            return
+        m = re.match(r"if\s+(.*?)\s*\{", it, re.S)
+        if m and not it.startswith("if let"):
+            inner, end = block_at(it, it.index("{", m.start()))
+            cond = re.sub(r"\s+", " ", m.group(1))
+            if it[end:].strip():
+                die("`if %s .. else`: not understood" % cond)
+            lv = leaves(inner, "if " + cond)
+            g = re.fullmatch(r"(\w+) (?:==|>=) (\w+)", cond)
+            if g and g.group(1) in counters:
+                if lv != "always":
+                    die("the limit check `if %s` does not leave the loop unconditionally" % cond)
                 if guard is not None:
-                    die("arm `%s` bumps a counter after its limit check" % pat)
-                bumps.append(m.group(1))
-                continue
-            m = re.match(r"if\s+(.*?)\s*\{", it, re.S)
-            if m:
-                inner, end = block_at(it, it.index("{", m.start()))
-                if it[end:].strip():
-                    die("arm `%s`: `if .. else` is not understood: %r" % (pat, it[:80]))
-                cond = re.sub(r"\s+", " ", m.group(1))
-                leaves = re.search(r"\bbreak\s*;", inner) is not None
-                if re.search(r"\b(continue|return|loop|while|for)\b|\?", inner):
-                    die("arm `%s`: control flow inside `if %s` is not understood" % (pat, cond))
-                if not leaves:
-                    continue
-                g = re.fullmatch(r"(\w+) == (\w+)", cond)
-                if g and g.group(1) in counters:
-                    if guard is not None:
-                        die("arm `%s` has two limit checks" % pat)
-                    guard = g.group(1)
-                    limit = limit or g.group(2)
-                    if limit != g.group(2):
-                        die("two different limits: %s and %s" % (limit, g.group(2)))
-                else:
-                    # conditional exit: an exiting variant of the arm
-                    arms.append(("%s if %s" % (pat, cond), True, list(bumps), None))
-                continue
-            if re.search(r"\b(continue|return|loop|while|for)\b|\?\s*;", it):
-                die("arm `%s`: statement not understood: %r" % (pat, it[:80]))
-            # eprintln!, thread::sleep, delay updates: no effect on the loop's control
-        arms.append((pat, exits, bumps, None if exits else guard))
-    if limit is None:
+                    die("path `%s` has two limit checks" % name)
+                # (a path that checks the limit without having counted this round is emitted as it is:
+                #  `Arm.ok` rejects it and the theorem `final_flush_terminates` no longer builds)
+                state["limit"] = state["limit"] or g.group(2)
+                if state["limit"] != g.group(2):
+                    die("two different limits: %s and %s" % (state["limit"], g.group(2)))
+                return walk(rest, name, bumps, g.group(1))
+            if lv in ("always", "maybe"):
+                arms.append(((name + " " if name else "") + "if " + cond, True, list(bumps), None))
+            return walk(rest, name, bumps, guard)
+        harmless(it, "final-flush loop")
+        return walk(rest, name, bumps, guard)
+
+    walk(top_level_items(found[1]), "", [], None)
+    if state["limit"] is None:
         die("no `counter == LIMIT` check found in the final-flush loop")
-    return counters, limit, arms
+    return counters, state["limit"], arms
 
 
 def stale_read_loop():
